@@ -1,5 +1,8 @@
 (* C01 — output equals the R2RML/RML generation rules.  Statements only. *)
-From Morph Require Import Base.UStr Model.Data Proofs.DataP.
+From Coq Require Import String.
+From Morph Require Import Base.UStr Gen.Tables Model.Terms Model.Data Model.Engine Model.Mapping Model.Spec
+     Proofs.DataP Proofs.SplitP Proofs.TemplateP Proofs.TermP Proofs.RowwiseP Proofs.RowSpecP Proofs.RuleSpecP.
+Local Open Scope N_scope.
 
 (* a row of the source reaches term construction iff none of the columns the rule references holds a null (NULL or a
    token of na_values) -- for every frame, every reference set, every na_values list *)
@@ -12,3 +15,92 @@ Proof.
   - destruct (row_has_null na refs r) eqn:E; auto. exfalso. apply H2. now apply row_has_null_iff.
 Qed.
 Print Assumptions null_filter_exact.
+
+(* str.join inverts str.split for every separator and text (the template loop and str.replace rest on it) *)
+Theorem join_inverts_split : forall sep s, sep <> [] -> join sep (split_on sep s) = s.
+Proof. exact join_split. Qed.
+Print Assumptions join_inverts_split.
+
+(* the two template readers agree: the engine's regular expression finds exactly the references the R2RML parser
+   finds, for every well-formed template (any number of references, any literal text) *)
+Theorem template_readers_agree : forall segs, wf segs = true ->
+  parse_template (flat segs) = segs /\ refs_in_template (flat segs) = names segs /\ unescape_braces (flat segs) = flat segs.
+Proof. intros segs H. repeat split; [now apply parse_flat|now apply refs_in_template_flat|now apply unescape_flat]. Qed.
+Print Assumptions template_readers_agree.
+
+(* _materialize_template (split at the first {ref}, append the transformed value to the position column, continue on the
+   rest) computes the substitution of the transformed values into the parsed template, touches no data column, and
+   fails exactly when a value is missing or cannot be transformed -- every template, row, configuration, term type *)
+Theorem template_loop_is_substitution : forall cfg k tt dt alias pos v r,
+  ueqb pos col_refres = false -> term_wf k v = true -> no_shadow alias pos (names (segs_of k v)) ->
+  match mat_template cfg v k pos alias tt dt r with
+  | Ok r' => exists w, esubst (val_of cfg k tt dt alias r) (segs_of k v) = Ok w /\ rget pos r' = Some (delimit tt w) /\
+                       (forall c, ueqb c pos = false -> ueqb c col_refres = false -> rget c r' = rget c r)
+  | Err e => esubst (val_of cfg k tt dt alias r) (segs_of k v) = Err e
+  end.
+Proof. intros cfg k tt dt alias pos v r H. now apply mat_template_spec. Qed.
+Print Assumptions template_loop_is_substitution.
+
+(* the term the engine builds for a constant, a reference or a template is the term of the generation rules: IRI-safe
+   encoding of every value of an IRI template, canonical lexical form and ECHAR escaping for literals, the delimiters
+   of the term type; where the rules give no term the engine gives none *)
+Theorem engine_term_is_rule_term : forall cfg scfg k v tt dt alias pos r sr,
+  ueqb pos col_refres = false -> is_plain k = true -> term_wf k v = true ->
+  (tt = TLit -> lits_neutral (segs_of k v) = true) ->
+  cfg_agree cfg scfg -> no_shadow alias pos (names (segs_of k v)) -> row_agree scfg sr alias r (names (segs_of k v)) ->
+  match mat_template cfg v k pos alias tt dt r with
+  | Ok r' => exists lex, spec_lex scfg k v tt dt sr = Some lex /\ rget pos r' = Some (render tt lex) /\
+                         (forall c, ueqb c pos = false -> ueqb c col_refres = false -> rget c r' = rget c r)
+  | Err _ => spec_lex scfg k v tt dt sr = None
+  end.
+Proof. exact engine_term_is_spec_term. Qed.
+Print Assumptions engine_term_is_rule_term.
+
+(* one row through one rule: subject, predicate, object, language tag / datatype, the triple string and the graph term
+   come out as the single statement the generation rules give for that row *)
+Theorem engine_row_is_rule_row : forall cfg fe scfg, cfg_agree cfg scfg -> c_nquads cfg = s_nquads scfg ->
+  forall rl r sr, rule_ok (c_nquads cfg) rl -> row_agree scfg sr [] r (rule_names rl) ->
+  match row_lines cfg fe rl r with
+  | Ok ls => exists line, spec_rule_line scfg rl sr = Some line /\ ls = [line]
+  | Err _ => spec_rule_line scfg rl sr = None
+  end.
+Proof. exact row_is_spec_row. Qed.
+Print Assumptions engine_row_is_rule_row.
+
+(* a whole rule: over the frame _preprocess_data delivers, the engine's statements are exactly the statements of the
+   generation rules for the rows of that frame -- every rule table, every frame of any size *)
+Theorem engine_rule_is_rule_semantics : forall cfg fe rules get_data scfg, cfg_agree cfg scfg -> c_nquads cfg = s_nquads scfg ->
+  forall rl na refs f,
+    s_na scfg = na -> plain_rule rl = true -> rule_ok (c_nquads cfg) rl -> incl (rule_names rl) refs ->
+    get_data (r_src rl) (rule_ref_set fe rules rl) = Ok (preprocess na refs f) ->
+    (forall ls, rule_triples cfg fe rules get_data rl = Ok ls ->
+       forall x, In x ls <-> exists r, In r (preprocess na refs f) /\ spec_rule_line scfg rl (srow_of r) = Some x) /\
+    ((forall r, In r (preprocess na refs f) -> spec_rule_line scfg rl (srow_of r) <> None) ->
+       exists ls, rule_triples cfg fe rules get_data rl = Ok ls).
+Proof. exact plain_rule_is_spec. Qed.
+Print Assumptions engine_rule_is_rule_semantics.
+
+(* the hypotheses are satisfiable: a template rule with a language-tagged literal object and a graph template *)
+Definition ex_rule : rule :=
+  {| r_id := u "#TM1"; r_tm := u "#TM1"; r_src := u "S"; r_asserted := true;
+     r_sk := KTempl; r_sv := u "http://ex.org/r/{id}"; r_stt := TIri;
+     r_pk := KConst; r_pv := u "http://ex.org/p"; r_ok := KTempl; r_ov := u "{first} {last}"; r_ott := TLit;
+     r_ld := LDLang; r_ldk := KConst; r_ldv := u "en"; r_gk := KTempl; r_gv := u "http://ex.org/g/{id}";
+     r_sjoin := []; r_ojoin := [] |}.
+Definition ex_cfg : ecfg := {| c_nquads := true; c_printable := true; c_safe := []; c_na := [] |}.
+Definition ex_scfg : scfg := {| s_nquads := true; s_printable := true; s_safe := []; s_na := [] |}.
+Definition ex_row : row := [(u "id", u "a b"); (u "first", u "Ann"); (u "last", u "O""Hara")].
+Example rule_ok_example : rule_ok true ex_rule /\ plain_rule ex_rule = true /\ row_agree ex_scfg (srow_of ex_row) [] ex_row (rule_names ex_rule).
+Proof.
+  split; [|split; [reflexivity|]].
+  - unfold rule_ok, pos_ok, names_free. cbn -[mem reserved]. repeat split; try reflexivity; try discriminate;
+      try (intros n Hn; repeat (destruct Hn as [<-|Hn]; [reflexivity|]); contradiction).
+    intros _. left. repeat split; try reflexivity; intros n Hn; repeat (destruct Hn as [<-|Hn]; [reflexivity|]); contradiction.
+  - intros n Hn. vm_compute in Hn. repeat (destruct Hn as [<-|Hn]; [reflexivity|]). contradiction.
+Qed.
+Print Assumptions rule_ok_example.
+Example rule_line_example :
+  spec_rule_line ex_scfg ex_rule (srow_of ex_row)
+  = Some (u "<http://ex.org/r/a%20b> <http://ex.org/p> ""Ann O\""Hara""@en <http://ex.org/g/a%20b>").
+Proof. vm_compute. reflexivity. Qed.
+Print Assumptions rule_line_example.
